@@ -42,6 +42,7 @@ class Unique:
 class TypeDecl:
     def __init__(self, name, kind, arg):
         self.name, self.kind, self.arg, self.line = name, kind, arg, 0   # kind: ref|enum|select
+        self.rules = []            # WHERE rules of the type: Rule(label, "tcall", fn=…, argc=…)
 
 
 class Func:
@@ -209,6 +210,10 @@ def gen_schema(rng, size=6, tag="", pre=""):
                     y.attrs.append(Attr(f"inv_{y.name}_{len(y.attrs)}", ("A", "SET OF", ("N", e.name)), inverse_for=a.name))
     # domain rules
     funcs = s.funcs()
+    for t in s.types():
+        if rng.random() < 0.3:
+            f = rng.choice(funcs)
+            t.rules.append(Rule("wt0", "tcall", fn=f.name, argc=f.nparams))
     for e in ents:
         expl = [a for a in e.attrs if a.inverse_for is None]
         nums = [a for a in expl if a.ty == ("S", "INTEGER") or a.ty == ("S", "REAL") or a.ty == ("S", "NUMBER")]
@@ -218,6 +223,8 @@ def gen_schema(rng, size=6, tag="", pre=""):
             e.rules.append(Rule(f"wr{k}", "call", fn=f.name, argc=f.nparams, attr=rng.choice(nums).name)); k += 1
         if expl and rng.random() < 0.4:
             e.rules.append(Rule(f"wr{k}", "exists", attr=rng.choice(expl).name)); k += 1
+        if nums and rng.random() < 0.3:
+            e.rules.append(Rule(f"wr{k}", "bare", attr=rng.choice(nums).name)); k += 1
     # redeclaration of an inherited explicit attribute: SELF\\ancestor.attr : <same type>
     for e in ents:
         if rng.random() < 0.25:
@@ -286,6 +293,14 @@ def render_into(s, out, proto):
             else:
                 emit(f"TYPE {d.name} = SELECT ({', '.join(d.arg)});")
                 proto.append(f"type {d.name} {d.line} select " + ",".join(f"{i}:{d.line}" for i in d.arg))
+            if d.rules:
+                emit("WHERE")
+            for r in d.rules:
+                r.line = ln()
+                args = ["SELF"] + [str(i + 1) for i in range(r.kw["argc"] - 1)]
+                emit(f"  {r.label} : {r.kw['fn']}({', '.join(args)}) > 0;")
+                proto.append(f"rule {r.label} {r.line}")
+                proto.append(f"call {r.kw['fn']} {r.kw['argc']}")
             if drop and drop[1] == "end_type":
                 emit("END_TYPE")
                 proto.append(f"syntax schema {s.name} {ln()}")
@@ -353,6 +368,9 @@ def render_into(s, out, proto):
                     emit(f"  {r.label} : EXISTS(SELF.{r.kw['attr']});")
                     proto.append("call exists 1")
                     proto.append(f"selfattr {r.kw['attr']}")
+                elif r.kind == "bare":
+                    emit(f"  {r.label} : {r.kw['attr']} > 0;")
+                    proto.append(f"bareattr {r.kw['attr']}")
                 elif r.kind == "smallreal":
                     emit(f"  {r.label} : SELF.{r.kw['attr']} > {r.kw['lit']};")
                     proto.append(f"selfattr {r.kw['attr']}")
@@ -579,7 +597,8 @@ def m_missing_super(s, rng):
             anc = _ancestors(s, d)
             d.attrs = [a for a in d.attrs if not (a.redecl_of and a.redecl_of not in anc)]
             vis = {a.name for a in d.attrs} | {a.name for an in anc if isinstance(s.find(an), Entity) for a in s.find(an).attrs}
-            d.uniques = [u for u in d.uniques if (u.qual is None or u.qual in anc) and u.attr in vis]
+            d.uniques = [u for u in d.uniques if u.attr in vis and
+                         (u.qual is None or (u.qual in anc and any(a.name == u.attr for a in s.find(u.qual).attrs)))]
             d.rules = [r for r in d.rules if r.kw.get("attr") is None or r.kw["attr"] in vis]
         return Fault("missing-supertype", s, [("MISSING_SUPERTYPE", [p.name, n])])
     ents = s.entities()
@@ -981,6 +1000,67 @@ MUTATORS["unique_unknown_attr"] = m_unique_unknown_attr
 MUTATORS["unique_unknown_qualified_attr"] = m_unique_unknown_qualified_attr
 MUTATORS["unique_unknown_supertype"] = m_unique_unknown_supertype
 MUTATORS["unique_needless_qualifier"] = m_unique_needless_qualifier
+def _subtree_only_attrs(s, e):
+    """attributes that exist in a subtype or a sibling (subtype of one of e's supertypes) of `e`, but are not visible in e"""
+    anc = _ancestors(s, e)
+    vis = {a.name for a in e.attrs} | {a.name for an in anc if isinstance(s.find(an), Entity) for a in s.find(an).attrs}
+    rel = set(_descendants(s, e))
+    for an in anc:
+        x = s.find(an)
+        if isinstance(x, Entity):
+            rel |= _descendants(s, x)
+    rel.discard(e.name)
+    out = []
+    for n in sorted(rel - anc):
+        x = s.find(n)
+        out += [(x, a) for a in x.attrs if a.name not in vis and a.inverse_for is None]
+    return out
+
+
+def m_undef_bare_attr(s, rng):
+    """a domain rule over a bare identifier that is no attribute of the entity: a fresh name, or (near miss) the name of an
+    attribute that only a subtype / sibling declares"""
+    c = [(e, x, a) for e in s.entities() for (x, a) in _subtree_only_attrs(s, e)]
+    if c and rng.random() < 0.75:
+        e, x, a = rng.choice(c)
+        nm, note = a.name, f"{a.name} is an attribute of {x.name} (subtype/sibling of {e.name}) only"
+    else:
+        e = rng.choice(s.entities())
+        nm, note = f"nosuch_v{rng.randint(0, 99)}", "fresh name"
+    r = Rule(f"wr{len(e.rules)}", "bare", attr=nm)
+    e.rules.append(r)
+    return Fault("undefined-attribute", s, [("UNDEFINED", [nm]), ("MISSING_SELF", [r.label])], note=note)
+
+
+def m_inverse_bad_attr_near(s, rng):
+    """INVERSE … FOR attr where attr exists only in a subtype / sibling of the target entity"""
+    c = [(t, x, a) for t in s.entities() for (x, a) in _subtree_only_attrs(s, t)]
+    hosts = s.entities()
+    if not c or not hosts:
+        return None
+    t, x, a = rng.choice(c)
+    y = rng.choice(hosts)
+    y.attrs.append(Attr(f"inv_{y.name}_{len(y.attrs)}n", ("A", "SET OF", ("N", t.name)), inverse_for=a.name))
+    return Fault("bad-inverse", s, [("INVERSE_BAD_ATTR", [a.name, t.name])], note=f"{a.name} is declared by {x.name}, not by {t.name} or its supertypes")
+
+
+def m_undef_func_in_type_where(s, rng):
+    """an undefined function in the WHERE rule of a type — of any kind, used or not (renamed types preferred)"""
+    ts = s.types()
+    if not ts:
+        return None
+    renamed = [t for t in ts if t.kind == "ref" and t.arg[0] == "N"]
+    t = rng.choice(renamed) if renamed and rng.random() < 0.6 else rng.choice(ts)
+    nm = f"nosuch_f{rng.randint(0, 99)}"
+    r = Rule(f"wt{len(t.rules)}", "tcall", fn=nm, argc=1)
+    t.rules.append(r)
+    kind = ("defined type " + ty_text(t.arg)) if t.kind == "ref" else {"enum": "enumeration", "select": "select"}[t.kind]
+    return Fault("undefined-function", s, [("UNDEFINED_FUNC", [nm]), ("MISSING_SELF", [r.label])], note=f"WHERE rule of TYPE {t.name} ({kind})")
+
+
+MUTATORS["undef_bare_attr"] = m_undef_bare_attr
+MUTATORS["inverse_bad_attr_near"] = m_inverse_bad_attr_near
+MUTATORS["undef_func_in_type_where"] = m_undef_func_in_type_where
 MUTATORS["type_self_cycle"] = m_type_self_cycle
 MUTATORS["dup_redecl_attr"] = m_dup_redecl_attr
 MUTATORS["entity_as_type"] = m_entity_as_type
@@ -1026,6 +1106,26 @@ def mf_sub_not_entity(f, rng):
     return flt
 
 
+def mf_undef_type_other_schema(f, rng):
+    """attribute typed by a name that exists — in a schema this one does not import"""
+    c = []
+    for s in f.schemas:
+        vis = set(_own(s)) | set(visible_imports(f, s.name))
+        for t in f.schemas:
+            if t is not s:
+                c += [(s, n) for n in _own(t) if n not in vis]
+    c = [(s, n) for (s, n) in c if s.entities()]
+    if not c:
+        return None
+    s, n = rng.choice(c)
+    e = rng.choice(s.entities())
+    k = len([b for b in e.attrs if b.inverse_for is None])
+    e.attrs.insert(k, Attr(f"a_{e.name}_x{rng.randint(0, 9)}", ("N", n)))
+    flt = Fault("undefined-type", f, [("UNDEFINED_TYPE", [n])], note=f"{n} is declared in another schema that {s.name} does not import")
+    flt.where = s.name
+    return flt
+
+
 def externalise(f, rng):
     """move 1..2 imported schemas of a multi-schema file into files of their own (found through the current directory, or
     through EXPRESS_PATH=lib); schemas nobody reachable imports are dropped.  Returns the EXPRESS_PATH value or None."""
@@ -1043,7 +1143,8 @@ def externalise(f, rng):
 
 
 FILE_MUTATORS = {"undef_schema": mf_undef_schema, "undef_item": mf_undef_item, "dup_alias": mf_dup_alias,
-                 "super_not_entity": mf_super_not_entity, "sub_not_entity": mf_sub_not_entity}
+                 "super_not_entity": mf_super_not_entity, "sub_not_entity": mf_sub_not_entity,
+                 "undef_type_other_schema": mf_undef_type_other_schema}
 
 
 def mutate_file(f, name, rng, where=None):
